@@ -23,7 +23,11 @@
 (*   are done), rl (referrer lists fetched)                                 *)
 (*                                                                          *)
 (* Actions -> code                                                          *)
-(*   CopyBegin        image.go:ImageCopy, GCLock (ocidir.go:GCLock)         *)
+(*   CopyBegin        image.go:ImageCopy, GCLock (ocidir.go:GCLock) of the   *)
+(*                    target and of a separate referrer target (conf rt:    *)
+(*                    ImageWithReferrerTgt; the image then goes to another  *)
+(*                    layout "q" of which only the lock entry is modelled,  *)
+(*                    its referrers are written here)                       *)
 (*   CopyCheck        imageCopyOpt: ManifestHead(tgt): by tag for the root  *)
 (*                    (the digest found is remembered), by digest for a     *)
 (*                    child (already in the layout -> not descended into)   *)
@@ -85,13 +89,16 @@ CONSTANTS Copies,     \* ids of the ImageCopy calls, e.g. {"c1", "c2"}
           MaxCloses,  \* number of rc.Close calls
           MaxOps,     \* number of other events (deletes, pushes, a failing source request)
           KeyMode,    \* how modRefs is keyed (ocidir.go:gcKey):
-                      \*  "clean"    filepath.Clean + Abs (fix 333d01d, the code as it is)
-                      \*  "resolve"  Clean + Abs + symlinks of the longest existing prefix resolved
-                      \*             (findings/C08-2.patch): every spelling of the directory is one key
+                      \*  "resolve"  Clean + Abs + symlinks of the longest existing parent resolved
+                      \*             (fixes 333d01d, 8db2746: the code as it is): every spelling of the
+                      \*             directory is one key
+                      \*  "clean"    Clean + Abs only (333d01d without 8db2746, finding C08-2)
                       \*  "literal"  the literal r.Path, as found (finding C08-1)
                       \*  "symlinks" Clean + Abs + EvalSymlinks, keeping the unresolved key while the
                       \*             layout does not exist yet (seeded change C08-3)
-                      \* the last two exist for expected-counterexample configurations only
+                      \* all but "resolve" exist for expected-counterexample configurations only
+          LockRefTgt, \* TRUE: ImageCopy also takes the GC lock of a separate referrer target (image.go,
+                      \* fix ed2957a); FALSE: only of refTgt, as found (finding C08-3)
           Eager       \* TRUE: steps of a copy that wait for nothing run before anything else
                       \* (hand-made partial order reduction for the graph-shape configurations;
                       \* the lock configurations are explored with every interleaving)
@@ -145,7 +152,13 @@ KeyIf(k, ex) == CASE KeyMode = "literal" -> k
                   [] KeyMode = "symlinks" -> IF ex THEN Resolve(k) ELSE Norm(k)
 GcKey(k) == KeyIf(k, Exists)      \* GCLock, GCUnlock, Close: the directory as it is now
 KeyW(k) == KeyIf(k, TRUE)         \* refMod: always called after a write, the directory exists
+\* "q" is another layout: the target of a copy whose referrers go to this layout
+\* (conf.cp[c].rt, ImageWithReferrerTgt); nothing else about it is modelled
 Keys == UNION {{k, Norm(k), Resolve(k)} : k \in {conf.cp[c].key : c \in Copies} \cup conf.ckeys \cup {conf.okey}}
+        \cup {"q"}
+\* what a copy with a separate referrer target writes into this layout: the referrers of M1, their
+\* config and blobs, and the fall-back index; the image itself goes to "q"
+HereNodes == {"A1", "A2", "E1", "B1", "B2", "R0", "R1", "R2", "R12"}
 
 -----------------------------------------------------------------------------
 (* Statement level reachability and the code's mark phase.                  *)
@@ -203,6 +216,12 @@ ManPut(f, i, n, t, child) ==
 
 -----------------------------------------------------------------------------
 CP(c) == conf.cp[c]
+Here(c, n) == ~CP(c).rt \/ n \in HereNodes
+\* ImageCopy: GCLock(refTgt), and of the referrer target when it is a separate one
+LockAll(m, c) == IF CP(c).rt THEN (IF LockRefTgt THEN GCLock(GCLock(m, "q"), GcKey(CP(c).key)) ELSE GCLock(m, "q"))
+                 ELSE GCLock(m, GcKey(CP(c).key))
+UnlockAll(m, c) == IF CP(c).rt THEN (IF LockRefTgt THEN GCUnlock(GCUnlock(m, "q"), GcKey(CP(c).key)) ELSE GCUnlock(m, "q"))
+                   ELSE GCUnlock(m, GcKey(CP(c).key))
 InProg(c) == cst[c] \in {"run", "fail"}          \* between GCLock and GCUnlock
 Sel(c, n) == (Cat[n].sub \cap Mans) \ CP(c).skip   \* child manifests kept by ImageWithPlatforms
 PreFiles == Closure(Nodes, {p[1] : p \in conf.pre}, {})
@@ -231,7 +250,7 @@ CopyBegin(c) ==
   /\ cst[c] = "idle"
   /\ cst' = [cst EXCEPT ![c] = "run"]
   /\ act' = [act EXCEPT ![c] = {CP(c).root}]
-  /\ modRefs' = GCLock(modRefs, GcKey(CP(c).key))
+  /\ modRefs' = LockAll(modRefs, c)
   /\ UNCHANGED <<conf, files, idx, hasidx, need, hit, got, tmpf, fin, rl, closes, ops>>
 
 \* ManifestHead on the layout.  Root: by tag, the digest found is kept for the comparison with the
@@ -242,7 +261,7 @@ Unchecked(c, n) == n \in act[c] /\ n \notin need[c] /\ n \notin got[c]
 CopyCheck(c, n) ==
   /\ cst[c] = "run" /\ Unchecked(c, n)
   /\ IF n = CP(c).root
-     THEN /\ hit' = [hit EXCEPT ![c] = TagHitNow(c)]
+     THEN /\ hit' = [hit EXCEPT ![c] = IF CP(c).rt THEN "none" ELSE TagHitNow(c)]
           /\ need' = [need EXCEPT ![c] = @ \cup {n}]
           /\ UNCHANGED <<act, fin>>
      ELSE IF n \in files /\ ~CP(c).refs
@@ -273,7 +292,7 @@ CopyFetch(c, n) ==
 BlobWanted(c, b) == \E n \in act[c] \cap got[c] : b \in Blb(n)
 CopyBlobCheck(c, b) ==
   /\ cst[c] = "run" /\ BlobWanted(c, b) /\ b \notin fin[c] /\ b \notin tmpf[c] /\ b \notin need[c]
-  /\ IF b \in files
+  /\ IF Here(c, b) /\ b \in files
      THEN fin' = [fin EXCEPT ![c] = @ \cup {b}] /\ need' = need
      ELSE need' = [need EXCEPT ![c] = @ \cup {b}] /\ fin' = fin
   /\ UNCHANGED <<conf, files, idx, hasidx, modRefs, cst, act, hit, got, tmpf, rl, closes, ops>>
@@ -281,9 +300,13 @@ CopyBlobCheck(c, b) ==
 CopyBlobStart(c, b) ==
   /\ cst[c] = "run" /\ b \in need[c] /\ b \notin Mans
   /\ need' = [need EXCEPT ![c] = @ \ {b}]
-  /\ tmpf' = [tmpf EXCEPT ![c] = @ \cup {b}]
-  /\ files' = files \cup {Tmp(c, b)}
-  /\ UNCHANGED <<conf, idx, hasidx, modRefs, cst, act, hit, got, fin, rl, closes, ops>>
+  /\ IF Here(c, b)
+     THEN /\ tmpf' = [tmpf EXCEPT ![c] = @ \cup {b}]
+          /\ files' = files \cup {Tmp(c, b)}
+          /\ fin' = fin
+     ELSE /\ fin' = [fin EXCEPT ![c] = @ \cup {b}]        \* written to the other layout
+          /\ UNCHANGED <<tmpf, files>>
+  /\ UNCHANGED <<conf, idx, hasidx, modRefs, cst, act, hit, got, rl, closes, ops>>
 
 CopyBlobCommit(c, b) ==
   /\ cst[c] = "run" /\ b \in tmpf[c]
@@ -308,12 +331,14 @@ ContentDone(c, n) == /\ n \in got[c] /\ Sel(c, n) \subseteq fin[c] /\ Blb(n) \su
                      /\ CP(c).refs => (n \in rl[c] /\ Referrers(n) \subseteq fin[c])
 CopyPutManifest(c, n) ==
   /\ cst[c] = "run" /\ n \in act[c] /\ ContentDone(c, n)
-  /\ LET r == ManPut(files, idx, n, CP(c).tag, n # CP(c).root) IN
-     /\ files' = r.files
-     /\ idx' = r.idx
-     /\ cst' = IF r.ok THEN cst ELSE [cst EXCEPT ![c] = "fail"]
-  /\ hasidx' = TRUE
-  /\ modRefs' = RefMod(modRefs, KeyW(CP(c).key))
+  /\ IF Here(c, n)
+     THEN /\ LET r == ManPut(files, idx, n, CP(c).tag, n # CP(c).root) IN
+             /\ files' = r.files
+             /\ idx' = r.idx
+             /\ cst' = IF r.ok THEN cst ELSE [cst EXCEPT ![c] = "fail"]
+          /\ hasidx' = TRUE
+          /\ modRefs' = RefMod(modRefs, KeyW(CP(c).key))
+     ELSE UNCHANGED <<files, idx, cst, hasidx, modRefs>>   \* pushed to the other layout
   /\ act' = [act EXCEPT ![c] = @ \ {n}]
   /\ fin' = [fin EXCEPT ![c] = @ \cup {n}]
   /\ UNCHANGED <<conf, need, hit, got, tmpf, rl, closes, ops>>
@@ -321,7 +346,7 @@ CopyPutManifest(c, n) ==
 CopyEnd(c) ==
   /\ cst[c] = "run" /\ act[c] = {} /\ tmpf[c] = {}
   /\ cst' = [cst EXCEPT ![c] = "ok"]
-  /\ modRefs' = GCUnlock(modRefs, GcKey(CP(c).key))
+  /\ modRefs' = UnlockAll(modRefs, c)
   /\ UNCHANGED <<conf, files, idx, hasidx, act, need, hit, got, tmpf, fin, rl, closes, ops>>
 
 \* a request to the source fails (counted as one of the MaxOps other events): the error is
@@ -339,7 +364,7 @@ CopyFailEnd(c) ==
   /\ cst' = [cst EXCEPT ![c] = "err"]
   /\ act' = [act EXCEPT ![c] = {}]
   /\ need' = [need EXCEPT ![c] = {}]
-  /\ modRefs' = GCUnlock(modRefs, GcKey(CP(c).key))
+  /\ modRefs' = UnlockAll(modRefs, c)
   /\ UNCHANGED <<conf, files, idx, hasidx, hit, got, tmpf, fin, rl, closes, ops>>
 
 \* a put that was between temp file and rename when the copy failed still finishes (or fails)
@@ -449,7 +474,8 @@ TypeOK ==
 LocksNonNeg == \A k \in Keys : modRefs[k].locks >= 0
 \* the lock count of a path is the number of copies in progress with that path; in particular an
 \* entry is never deleted (by Close, or by anything else) while it carries a positive count
-Holders(k) == Cardinality({c \in Copies : InProg(c) /\ GcKey(CP(c).key) = k})
+Holders(k) == Cardinality({c \in Copies : InProg(c) /\ GcKey(CP(c).key) = k /\ (~CP(c).rt \/ LockRefTgt)})
+              + Cardinality({c \in Copies : InProg(c) /\ CP(c).rt /\ k = "q"})
 LocksExact == \A k \in Keys : IF modRefs[k].ex THEN modRefs[k].locks = Holders(k) ELSE Holders(k) = 0
 \* the mark phase finds exactly what the index reaches (lemma behind O1 and O2)
 MarkIsReach == MarkAll(files, idx) \cap files = Reach(files, idx) \cap files
@@ -470,6 +496,6 @@ O4 == [][(CloseStep /\ ~conf.gc) => files' = files]_vars
 OnlyCloseDeletes == [][(files \ files') # {} => (CloseStep \/ ops' = ops + 1 \/ \A x \in files \ files' : IsTmp(x))]_vars
 \* a copy that returns nil was never collected under: everything it handled that the index still
 \* reaches is present (no deletes in these configurations)
-CopyKeeps == \A c \in Copies : (cst[c] = "ok" /\ MaxOps = 0) =>
+CopyKeeps == \A c \in Copies : (cst[c] = "ok" /\ MaxOps = 0 /\ ~CP(c).rt) =>
                (Closure(Nodes, {CP(c).root}, {}) \cap Reach(files, idx) \cap fin[c]) \subseteq files
 =============================================================================
